@@ -3,7 +3,8 @@
 E3: per family a base configuration and every single-parameter variant; ALL
 ordered pairs, both operands non-empty, operands in memory and in shared
 memory.  Incompatible pair => TypeError and the full state of both operands is
-bit-for-bit unchanged; compatible pair => merge() does not raise.
+bit-for-bit unchanged; compatible pair => merge() does not raise.  In a second
+pass one operand went through save()/load() (in memory / shared memory).
 """
 import itertools
 
@@ -130,6 +131,7 @@ def run(rep):
                         rep.violation(case, f"refused merge {ka}{aa}.merge({kb}{ab}) modified an operand")
                 del a, b
         rep.part(fam, configurations=len(cfgs))
+    pairs += loaded_operands(rep)
     rep.set("states", pairs)
     rep.set("transitions", pairs)
     rep.set("traces_validated_against_impl", pairs)
@@ -146,8 +148,80 @@ def run(rep):
         raise MachineryError("C15 grid has too few incompatible pairs")
 
 
+def _loaded(kind, args, i, shared):
+    """A sketch of this configuration that went through save() / load()."""
+    import os
+    import tempfile
+
+    pre = SK.make(kind, *args)
+    fill(pre, kind, i)
+    fd, path = tempfile.mkstemp(suffix=".npz", dir="/dev/shm")
+    os.close(fd)
+    try:
+        pre.save(path)
+        return SK.classes()[kind].load(path, shared)
+    finally:
+        os.unlink(path)
+
+
+def loaded_case(A, B, i, j, shared, direction):
+    """Operand L = configuration A (index i) after save/load, operand F = fresh configuration
+    B (index j).  direction 0: L.merge(F); 1: F.merge(L)."""
+    (ka, aa), (kb, ab) = A, B
+    L = _loaded(ka, aa, i, shared)
+    F = SK.make(kb, *ab)
+    fill(F, kb, j)
+    a, b = (L, F) if direction == 0 else (F, L)
+    ca, cb = capture(a, SKIP), capture(b, SKIP)
+    compatible = compat_key(ka, aa) == compat_key(kb, ab)
+    exc = None
+    try:
+        a.merge(b)
+    except Exception as e:  # noqa
+        exc = e
+    changed = capture(a, SKIP) != ca or capture(b, SKIP) != cb
+    if compatible:
+        bad = exc is not None
+        msg = (f"loaded {ka}{aa} and fresh {kb}{ab} agree on every parameter but merge raised "
+               f"{type(exc).__name__}: {exc}") if bad else ""
+    else:
+        bad = (not isinstance(exc, TypeError)) or changed
+        msg = (f"loaded {ka}{aa} / fresh {kb}{ab} (incompatible): "
+               + ("did not raise" if exc is None else f"raised {type(exc).__name__}"
+                  if not isinstance(exc, TypeError) else "an operand was modified")) if bad else ""
+    del a, b, L, F
+    return bad, msg, {"compatible": compatible, "raised": type(exc).__name__ if exc else None,
+                      "operands_changed": changed if not compatible else None}
+
+
+def loaded_operands(rep):
+    """One operand went through save()/load() (in memory and in shared memory): it must still
+    merge with a fresh sketch of its own configuration, in both directions, and still be
+    refused by every other configuration of the family."""
+    n = 0
+    for fam, cfgs in families(rep.seed).items():
+        for i in range(len(cfgs)):
+            for j in ([i] + [x for x in range(len(cfgs)) if x != i][: (3 if rep.tier == "quick" else 99)]):
+                for shared in (False, True):
+                    for direction in (0, 1):
+                        bad, msg, _ = loaded_case(cfgs[i], cfgs[j], i, j, shared, direction)
+                        n += 1
+                        rep.evals()
+                        if bad:
+                            rep.violation({"loaded": True, "a": list(cfgs[i]), "b": list(cfgs[j]),
+                                           "i": i, "j": j, "shared": shared,
+                                           "direction": direction}, msg)
+        rep.nontrivial(("loaded", fam))
+    rep.part("loaded_operands", pairs=n)
+    return n
+
+
 def replay(case):
     quiet_shm()
+    if case.get("loaded"):
+        bad, msg, obs = loaded_case(tuple(case["a"]), tuple(case["b"]), case["i"], case["j"],
+                                    case["shared"], case["direction"])
+        return bad, obs
     ka, aa, sa = case["a"]
     kb, ab, sb = case["b"]
     a = SK.make(ka, *aa, shared_memory=sa)
